@@ -447,7 +447,7 @@ static void method_report(const std::string &method, int r, const std::string &a
   if (r != 0) rep.nontrivial(du::hmix(du::hstr(6, method), static_cast<uint64_t>(static_cast<int64_t>(r))));
   if (!m.problem.empty()) {
     jobj o;
-    o.add("method", jstr(method)).add("c_result", jnum(r)).add("arguments", args).add("observed", m.detail);
+    o.add("method", jstr(method)).add("c_result", jnum(r)).add("arguments", args).add("observed", m.detail.empty() ? std::string("null") : m.detail);
     rep.fail("monitor", m.key, method + ": " + m.problem, o.str());
   }
 }
